@@ -534,7 +534,49 @@ Proof.
   eexists. split; vm_compute; reflexivity.
 Qed.
 
+(* [F] (b) completeness of the enumeration: take ANY assignment `a` of the registered cells to the regions whose final
+   lists (cells in ascending index per region: `distribute`) fit the widths and polarities (cell widths >= 0, as in every
+   legal row structure), and ANY arrangement of every region other than the ascending one: that leaf is evaluated.
+   Together with c05_reordering_leaf_shape (+ loop_perms = all permutations but the first): the leaves are exactly these.
+   NOT enumerated, as the code stands: arrangements in which some region keeps its cells in ascending index order --
+   in particular every assignment that gives some region fewer than two cells (see c05_reordering_skips_sorted_arrangement) *)
+Require Import CV.ReorderCompleteProofs.
+Theorem c05_reordering_enumeration_complete : forall d rgs a ps,
+  let gs := map fst rgs in
+  let cells := sort_asc (map p_id (registered rgs)) in
+  let ord := distribute a cells (map (fun _ => []) rgs) in
+  (forall c, In c cells -> 0 <= width_of d c) ->
+  (forall c, In c cells -> exists g, nth_error gs (a c) = Some g) ->
+  (forall i g, nth_error gs i = Some g ->
+     alloc_width (width_of d) (nth i ord []) <= rg_width g /\ forall c, In c (nth i ord []) -> rok d g c) ->
+  Forall2 (fun o p => Permutation o p /\ p <> o) ord ps ->
+  In (leaf_of (chosen_of (width_of d) (combine gs ps))) (leaves_of d rgs).
+Proof. exact enumeration_complete_final. Qed.
+
+(* non-vacuity on exr: both cells to the only region, the arrangement 1, 0: the hypotheses hold and the leaf is the one evaluated *)
+Example c05_reordering_enumeration_complete_nonvacuous :
+  exists d0 rgs, from_circuit exr = DOk d0 /\ regions_of d0 [0%nat; 1%nat] [0%nat; 1%nat] = Some rgs /\
+    let a := fun _ : nat => 0%nat in
+    distribute a (sort_asc (map p_id (registered rgs))) (map (fun _ => []) rgs) = [[0%nat; 1%nat]] /\
+    (forall c, In c (sort_asc (map p_id (registered rgs))) -> 0 <= width_of d0 c) /\
+    (forall c, In c (sort_asc (map p_id (registered rgs))) -> exists g, nth_error (map fst rgs) (a c) = Some g) /\
+    (forall i g, nth_error (map fst rgs) i = Some g ->
+       alloc_width (width_of d0) (nth i [[0%nat; 1%nat]] []) <= rg_width g /\ forall c, In c (nth i [[0%nat; 1%nat]] []) -> rok d0 g c) /\
+    Forall2 (fun o p => Permutation o p /\ p <> o) [[0%nat; 1%nat]] [[1%nat; 0%nat]] /\
+    leaf_of (chosen_of (width_of d0) (combine (map fst rgs) [[1%nat; 0%nat]])) = [(1%nat, 0%nat, None, 0); (0%nat, 0%nat, Some 1%nat, 2)].
+Proof.
+  eexists. eexists. split; [vm_compute; reflexivity|]. split; [vm_compute; reflexivity|]. cbn zeta.
+  split; [vm_compute; reflexivity|].
+  split; [intros c Hc; vm_compute in Hc; destruct Hc as [<-|[<-|[]]]; vm_compute; discriminate|].
+  split; [intros c _; eexists; vm_compute; reflexivity|].
+  split.
+  { intros [|i] g Hn; [|destruct i; discriminate]. vm_compute in Hn. injection Hn as <-.
+    split; [vm_compute; discriminate|]. intros c [<-|[<-|[]]]; vm_compute; reflexivity. }
+  split; [constructor; [split; [apply perm_swap|discriminate]|constructor]|]. vm_compute. reflexivity.
+Qed.
+
 Print Assumptions c05_reordering_leaf_shape.
+Print Assumptions c05_reordering_enumeration_complete.
 Print Assumptions c05_closed_reordering_is_paired_step.
 Print Assumptions c05_closed_reordering_never_worsens.
 Print Assumptions c05_closed_reordering_returns_minimum.
